@@ -96,6 +96,9 @@ func sfxIndex(s string) int {
 
 func tm(off int) time.Time { return time.Unix(Base+int64(off), 0).UTC() }
 
+// Tm converts an abstract instant to a concrete one.
+func Tm(off int) time.Time { return tm(off) }
+
 func ConcreteFeed(f Feed) *gtfs.Realtime {
 	r := &gtfs.Realtime{CreatedAt: tm(f.T)}
 	for _, u := range f.Ups {
@@ -417,4 +420,32 @@ func Gen(r *rand.Rand, nFeeds, nTrips, nStops int) Case {
 	}
 	c.Windows = []Window{{0, 1 << 20}, {3600, 3600}, {3601, 7200}, {7200, 10799}, {20000, 10}}
 	return c
+}
+
+// UIDString is the journal UID of an abstract uid.
+func UIDString(u Uid) string { return strconv.FormatInt(Base+int64(u.Start), 10) + sfxName(u.Sfx) }
+
+// TripIDString is the concrete trip id with the given prefix and suffix.
+func TripIDString(pfx, sfx int) string { return fmt.Sprintf("%06d", pfx*100) + sfxName(sfx) }
+
+// ProjUID projects a journal UID string.
+func ProjUID(s string) Uid { return projUID(s) }
+
+// ProjTripID projects a trip id into (prefix, suffix); -1 where it does not fit the vocabulary.
+func ProjTripID(id string) (int, int) {
+	pfx, sfx := -1, -1
+	if len(id) >= 6 {
+		if n, err := strconv.Atoi(id[:6]); err == nil && n%100 == 0 {
+			pfx = n / 100
+		}
+		sfx = sfxIndex(id[6:])
+	}
+	return pfx, sfx
+}
+
+// Build runs the real BuildJournal over an abstract history with the widest window.
+func Build(feeds []Feed) (j *journal.Journal, crash string) {
+	const big = 1 << 30
+	_, j, crash = build(feeds, -big, big)
+	return
 }
